@@ -240,6 +240,7 @@ type Sink struct {
 	// requests created on that pair
 	reqOrd  map[interface{}]int // keyed by the request object itself: keeps it alive, so its address is never reused
 	reqSeen map[string]int
+	poolOrd map[interface{}]int // pools by identity: several sessions have pools for the same host
 }
 
 type Gate struct {
@@ -255,7 +256,7 @@ type Gate struct {
 
 func NewSink(t *tracer.Tracer) *Sink {
 	return &Sink{T: t, pendMap: map[interface{}]*proxycore.ClientConn{}, repeat: map[string]int{}, Spins: map[string]int{}, Counts: map[string]int{},
-		reqOrd: map[interface{}]int{}, reqSeen: map[string]int{}}
+		reqOrd: map[interface{}]int{}, reqSeen: map[string]int{}, poolOrd: map[interface{}]int{}}
 }
 
 // AddGate parks every goroutine that reaches `point` with pred(args) true until Release.
@@ -308,6 +309,17 @@ func (s *Sink) reqKey(r interface{}) (caddr string, stream int, ok bool) {
 }
 
 // reqOrdinal returns the 1-based ordinal of request object r among the requests created on its (client, stream).
+func (s *Sink) poolOrdinal(p interface{}) int {
+	s.mu.Lock()
+	defer s.mu.Unlock()
+	n, ok := s.poolOrd[p]
+	if !ok {
+		n = len(s.poolOrd) + 1
+		s.poolOrd[p] = n
+	}
+	return n
+}
+
 func (s *Sink) reqOrdinal(r interface{}) int {
 	r = unwrap(r)
 	ca, st, ok := proxy.VerifRequestInfo(r)
@@ -415,7 +427,7 @@ func (s *Sink) Handle(point string, args ...interface{}) {
 			s.mu.Unlock()
 		}
 	case "slot.delay":
-		s.T.Emit("H.delay", "who", "pool", "host", proxycore.VerifPoolEndpoint(args[0]), "idx", args[1], "ns", int64(args[2].(time.Duration)))
+		s.T.Emit("H.delay", "who", "pool", "host", proxycore.VerifPoolEndpoint(args[0]), "idx", args[1], "ns", int64(args[2].(time.Duration)), "pool", s.poolOrdinal(args[0]))
 	case "ctrl.delay":
 		s.T.Emit("H.delay", "who", "ctrl", "host", "", "idx", 0, "ns", int64(args[1].(time.Duration)))
 	case "outage":
@@ -425,10 +437,10 @@ func (s *Sink) Handle(point string, args ...interface{}) {
 	case "host.remove":
 		s.T.Emit("H.hostremove", "host", args[1].(*proxycore.Host).Key())
 	case "slot.clear":
-		s.T.Emit("H.slotclear", "host", proxycore.VerifPoolEndpoint(args[0]), "idx", args[1])
+		s.T.Emit("H.slotclear", "host", proxycore.VerifPoolEndpoint(args[0]), "idx", args[1], "pool", s.poolOrdinal(args[0]))
 	case "slot.fill":
 		host, local := hostOfConn(args[2].(*proxycore.ClientConn))
-		s.T.Emit("H.slotfill", "host", host, "idx", args[1], "local", local)
+		s.T.Emit("H.slotfill", "host", host, "idx", args[1], "local", local, "pool", s.poolOrdinal(args[0]))
 	}
 	for _, g := range gates {
 		if g.Point == point && (g.Pred == nil || g.Pred(args)) {
